@@ -578,67 +578,93 @@ func c20Subset(c *Ctx) {
 	castleOK := false
 	nFilters := 0
 	unguarded := ""
-	for _, b := range fpm.Blocks {
-		for _, ins := range b.Instrs {
-			shrinks := false
-			if call, isCall := ins.(*ssa.Call); isCall && call.Call.StaticCallee() != nil && call.Call.StaticCallee().Name() == "FindMoves" {
-				if _, isClosure := stripConv(call.Call.Args[1]).(*ssa.MakeClosure); isClosure {
-					shrinks = true
-				}
-			}
-			if sl, isSlice := ins.(*ssa.Slice); isSlice && (sl.Low != nil || sl.High != nil) {
-				if st, ok := sl.X.Type().Underlying().(*types.Slice); ok && namedOf(st.Elem()) != nil && core.ObjName(namedOf(st.Elem()).Obj()) == "Move" {
-					shrinks = true
-				}
-			}
-			if call, isCall := ins.(*ssa.Call); isCall && !shrinks {
-				if h := call.Call.StaticCallee(); h != nil && h.Blocks != nil && h.Pkg == fpm.Pkg && narrowsMoveList(h, 0) {
-					shrinks = true
-				}
-			}
-			if !shrinks {
+	// a block is under the castle flag: some true-edge guard is a boolean variable that becomes true only in a
+	// block that also ranks the move
+	blockGuarded := func(b *ssa.BasicBlock) bool {
+		for _, ge := range edgeGuards(b) {
+			if !ge.pol {
 				continue
 			}
-			nFilters++
-			guarded := false
-			for _, ge := range edgeGuards(b) {
-				if !ge.pol {
+			nTrue, other, withRank := 0, 0, true
+			for _, df := range defSites(ge.cond, map[ssa.Value]bool{}) {
+				v, isC := constBoolArg(df.val)
+				if !isC {
+					other++
 					continue
 				}
-				// a boolean variable that becomes true only in a block that also ranks the move
-				nTrue, other, withRank := 0, 0, true
-				for _, df := range defSites(ge.cond, map[ssa.Value]bool{}) {
-					v, isC := constBoolArg(df.val)
-					if !isC {
-						other++
-						continue
-					}
-					if v {
-						nTrue++
-						ranked := false
-						if df.blk != nil {
-							for _, pi := range df.blk.Instrs {
-								if _, isMU := pi.(*ssa.MapUpdate); isMU {
-									ranked = true
-								}
+				if v {
+					nTrue++
+					ranked := false
+					if df.blk != nil {
+						for _, pi := range df.blk.Instrs {
+							if _, isMU := pi.(*ssa.MapUpdate); isMU {
+								ranked = true
 							}
 						}
-						withRank = withRank && ranked
 					}
-				}
-				if _, isPhi := ge.cond.(*ssa.Phi); !isPhi {
-					if u, ok := ge.cond.(*ssa.UnOp); !ok || u.Op != token.MUL {
-						continue
-					}
-				}
-				if other == 0 && nTrue > 0 && withRank {
-					guarded = true
+					withRank = withRank && ranked
 				}
 			}
-			if guarded {
-				castleOK = true
-			} else {
-				unguarded = joinNonEmpty(unguarded, "the list is narrowed at "+c.pos(ins.Pos())+" outside the castle branch")
+			if _, isPhi := ge.cond.(*ssa.Phi); !isPhi {
+				if u, ok := ge.cond.(*ssa.UnOp); !ok || u.Op != token.MUL {
+					continue
+				}
+			}
+			if other == 0 && nTrue > 0 && withRank {
+				return true
+			}
+		}
+		return false
+	}
+	// the function and the helpers of its package it is split into: a narrowing is guarded in its own function,
+	// or - when it sits in a helper - at every call of that helper (transitively)
+	fam := funcFamily(fpm)
+	var guardedAt func(f *ssa.Function, b *ssa.BasicBlock, depth int) bool
+	guardedAt = func(f *ssa.Function, b *ssa.BasicBlock, depth int) bool {
+		if blockGuarded(b) {
+			return true
+		}
+		if f == fpm || depth > 3 {
+			return false
+		}
+		n := 0
+		for _, g := range fam {
+			for _, gb := range g.Blocks {
+				for _, gi := range gb.Instrs {
+					if call, ok := gi.(ssa.CallInstruction); ok && call.Common().StaticCallee() == f {
+						n++
+						if !guardedAt(g, gb, depth+1) {
+							return false
+						}
+					}
+				}
+			}
+		}
+		return n > 0
+	}
+	for _, f := range fam {
+		for _, b := range f.Blocks {
+			for _, ins := range b.Instrs {
+				shrinks := false
+				if call, isCall := ins.(*ssa.Call); isCall && call.Call.StaticCallee() != nil && call.Call.StaticCallee().Name() == "FindMoves" {
+					if _, isClosure := stripConv(call.Call.Args[1]).(*ssa.MakeClosure); isClosure {
+						shrinks = true
+					}
+				}
+				if sl, isSlice := ins.(*ssa.Slice); isSlice && (sl.Low != nil || sl.High != nil) {
+					if st, ok := sl.X.Type().Underlying().(*types.Slice); ok && namedOf(st.Elem()) != nil && core.ObjName(namedOf(st.Elem()).Obj()) == "Move" {
+						shrinks = true
+					}
+				}
+				if !shrinks {
+					continue
+				}
+				nFilters++
+				if guardedAt(f, b, 0) {
+					castleOK = true
+				} else {
+					unguarded = joinNonEmpty(unguarded, "the list is narrowed at "+c.pos(ins.Pos())+" outside the castle branch")
+				}
 			}
 		}
 	}
